@@ -2326,7 +2326,12 @@ class AnsiStr(str):
         '''
         if not isinstance(value, AnsiStr):
             return False
-        return str(self) == str(value)
+        # (comparing the rendered strings would call settings equal that only look the same)
+        return self._s == value._s
+
+    def __ne__(self, value) -> bool:
+        # Negation of == (otherwise str.__ne__ would be inherited, which compares the rendered payloads)
+        return not self.__eq__(value)
 
     def __contains__(self, value:Union[str,'AnsiString','AnsiStr',Any]) -> bool:
         ''' Returns True iff the str or the underlying str of an AnsiString is in this AnsiString '''
